@@ -90,9 +90,11 @@ fn main() {
     let known = load_known(&verif_dir);
     let code = dispatch!(id.as_str(), &ctx, &known, replay.as_deref(),
         "C03" => c03,
+        "C05" => c05,
         "C06" => c06,
         "C08" => c08,
         "C09" => c09,
+        "C10" => c10,
         "C11" => c11,
         "C12" => c12,
         "C16" => c16,
